@@ -167,6 +167,8 @@ RUN(r_png_read, mzd_t *A = mzd_from_png(s.file.c_str(), 0); if (A) mzd_free(A))
 RUN(r_jcf_read, mzd_t *A = mzd_from_jcf(s.file.c_str(), 0); if (A) mzd_free(A))
 RUN(r_from_str, std::string t((size_t)s.m * s.n, '1'); mzd_t *A = mzd_from_str(s.m, s.n, t.c_str()); mzd_free(A))
 RUN(r_djb, djb_t *z = djb_compile(s.M[0]); mzd_t *W = mzd_init(s.m, s.n); djb_apply_mzd(z, W, s.M[1]); mzd_free(W); vf_djb_free(z))
+// library re-initialisation: the code books are rebuilt (49 allocation requests)
+RUN(r_fini_init, m4ri_fini(); m4ri_init())
 static void su_djb(Scn &s) {
   s.M.push_back(make_mzd(s.rnd(s.m, s.l, 1)));
   s.M.push_back(make_mzd(s.rnd(s.l, s.n, 2)));
@@ -224,6 +226,7 @@ static const Scenario SCN[] = {
     {"jcf_read", su_jcf, r_jcf_read, true},
     {"from_str", su_none, r_from_str, false},
     {"djb_compile_apply", su_djb, r_djb, false},
+    {"fini_init", su_none, r_fini_init, false},
 };
 static const int NSCN = sizeof(SCN) / sizeof(SCN[0]);
 
@@ -428,7 +431,7 @@ RegisterProp p_C20({"C20",
                     "fault enumeration: scenario (create, window, permutation object, every multiplication route incl. squaring and the "
                     "multi-core front end where built, every elimination route, PLE/PLUQ, three inversions, solve, kernel, four TRSMs, "
                     "transposition incl. into / from a window with excess bits, copy/submatrix/concat/stack/add/extract, permutation "
-                    "applications, PNG write/read, JCF read, string constructor, DJB compile with > 64 operations, 70-198 and 1031 "
+                    "applications, PNG write/read, JCF read, string constructor, DJB compile with > 64 operations, library re-initialisation, 70-198 and 1031 "
                     "simultaneously live headers) x operand sizes "
                     "(3 fixed variants quick / 4 thorough + generated sizes); for each instance the allocation requests are counted in "
                     "a forked child started from an empty block cache and then EVERY request index i is failed in a fresh child; "
